@@ -315,7 +315,7 @@ class ApplyDoUndo(FnContract):
     cls = 'ApplySubsetState'
 
     def configs(self, tier):
-        return [dict(ndata=n, groups=g, creates=c) for n in (1, 2) for g in (0, 1) for c in (False, True)]
+        return [dict(ndata=n, groups=g, creates=c) for n in (0, 1, 2) for g in (0, 1) for c in (False, True)]
 
     def inputs(self, cfg, P):
         nd, ng = cfg['ndata'], cfg['groups']
@@ -323,7 +323,10 @@ class ApplyDoUndo(FnContract):
         dc = PObj('DataCollection')
 
         def mk_subset(data, group, tag):
-            s = PObj('GroupedSubset', fields={'data': data, 'group': group, 'subset_state': z3.Const('state_' + tag, State)})
+            # GroupedSubset.subset_state is a Pointer to group.subset_state
+            s = PObj('GroupedSubset', fields={'data': data, 'group': group})
+            s.methods['subset_state'] = ('__property__', lambda I, self_: self_.fields['group'].fields['subset_state'])
+            s.methods['subset_state.setter'] = lambda I, self_, v: self_.fields['group'].fields.__setitem__('subset_state', v)
 
             def delete(I, self_):
                 d = self_.fields['data']
@@ -335,7 +338,7 @@ class ApplyDoUndo(FnContract):
             d.methods['subsets'] = ('__property__', lambda I, self_: tuple(self_.fields['_subsets']))
             world.datas.append(d)
         for j in range(ng):
-            g = PObj('SubsetGroup', fields={'subsets': []})
+            g = PObj('SubsetGroup', fields={'subsets': [], 'subset_state': z3.Const('group_state_%d' % j, State)})
             for i, d in enumerate(world.datas):
                 s = mk_subset(d, g, 'g%d_d%d' % (j, i))
                 d.fields['_subsets'].append(s)
@@ -364,11 +367,10 @@ class ApplyDoUndo(FnContract):
 
         def apply_update(I, *a, **k):
             """the selection is applied (external): see class docstring"""
-            for d in world.datas:
-                for s in d.fields['_subsets']:
-                    s.fields['subset_state'] = I.path.fresh('new_state', State)
+            for g in world.groups:
+                g.fields['subset_state'] = I.path.fresh('new_state', State)
             if cfg['creates']:
-                g = PObj('SubsetGroup', fields={'subsets': []})
+                g = PObj('SubsetGroup', fields={'subsets': [], 'subset_state': I.path.fresh('created_state', State)})
                 for i, d in enumerate(world.datas):
                     s = mk_subset(d, g, 'created_d%d' % i)
                     d.fields['_subsets'].append(s)
@@ -382,7 +384,7 @@ class ApplyDoUndo(FnContract):
         cmd = PObj(self.cls, fields={'data_collection': dc, 'subset_state': z3.Const('applied_state', State), 'extra': {},
                                      'roi': z3.Const('roi', State), 'apply_func': Builtin('apply_func', apply_update)})
         before = St(groups=list(world.groups), subsets=[list(d.fields['_subsets']) for d in world.datas],
-                    states=[[s.fields['subset_state'] for s in d.fields['_subsets']] for d in world.datas],
+                    states=[g.fields['subset_state'] for g in world.groups],
                     edit=list(world.edit.items), sg_count=world.sg_count)
         st = St(world=world, dc=dc, mode=mode, session=session, cmd=cmd, before=before)
         return Inputs([cmd, session], st=st)
@@ -407,8 +409,10 @@ class ApplyDoUndo(FnContract):
         ok_subsets = all(len(d.fields['_subsets']) == len(bs) and all(x is y for x, y in zip(d.fields['_subsets'], bs))
                          for d, bs in zip(w.datas, b.subsets))
         P.check(qn + "/ensures:each-dataset-has-exactly-its-previous-subsets", ok_subsets)
-        if ok_subsets:
-            conds = [s.fields['subset_state'] == old for d, olds in zip(w.datas, b.states) for s, old in zip(d.fields['_subsets'], olds)]
+        if len(w.groups) == len(b.groups):
+            # the selection of every group (which is what each of its subsets shows), also of groups that have no subset because
+            # the collection holds no dataset
+            conds = [g.fields['subset_state'] == old for g, old in zip(w.groups, b.states)]
             P.check(qn + "/ensures:every-selection-restored", S.And(*conds) if conds else True)
         e = st.mode.fields['_edit_subset']
         items = e.items if isinstance(e, PList) else (list(e) if isinstance(e, (list, tuple)) else None)
@@ -428,9 +432,11 @@ class ApplyDoUndo(FnContract):
         for d in w.datas:
             d.fields['_subsets'] = []
         for j, g_old in enumerate(old_groups):
-            g = PObj('SubsetGroup', fields={'subsets': []})
+            g = PObj('SubsetGroup', fields={'subsets': [], 'subset_state': P.fresh('round2_state', State)})
             for i, d in enumerate(w.datas):
-                s = PObj('GroupedSubset', fields={'data': d, 'group': g, 'subset_state': P.fresh('round2_state', State)})
+                s = PObj('GroupedSubset', fields={'data': d, 'group': g})
+                s.methods['subset_state'] = ('__property__', lambda I, self_: self_.fields['group'].fields['subset_state'])
+                s.methods['subset_state.setter'] = lambda I, self_, v: self_.fields['group'].fields.__setitem__('subset_state', v)
                 s.methods['delete'] = g_old.fields['subsets'][i].methods['delete'] if g_old.fields['subsets'] else None
                 d.fields['_subsets'].append(s)
                 g.fields['subsets'].append(s)
@@ -438,7 +444,7 @@ class ApplyDoUndo(FnContract):
         st.mode.fields['_edit_subset'] = PList([w.groups[0]]) if w.groups else PList([])
         st.dc.fields['_sg_count'] = P.fresh_int('sg_count_round2')
         b = St(groups=list(w.groups), subsets=[list(d.fields['_subsets']) for d in w.datas],
-               states=[[s.fields['subset_state'] for s in d.fields['_subsets']] for d in w.datas],
+               states=[g.fields['subset_state'] for g in w.groups],
                edit=list(st.mode.fields['_edit_subset'].items), sg_count=st.dc.fields['_sg_count'])
         for fn in ('do', 'undo'):
             ft = FunctionText(CMD.split(':')[0], self.cls + '.' + fn)
@@ -452,8 +458,8 @@ class ApplyDoUndo(FnContract):
         ok2 = all(len(d.fields['_subsets']) == len(bs) and all(x is y for x, y in zip(d.fields['_subsets'], bs))
                   for d, bs in zip(w.datas, b.subsets))
         P.check(qn + "/redo-round:each-dataset-has-exactly-its-previous-subsets", ok2)
-        if ok2:
-            conds = [s.fields['subset_state'] == old for d, olds in zip(w.datas, b.states) for s, old in zip(d.fields['_subsets'], olds)]
+        if len(w.groups) == len(b.groups):
+            conds = [g.fields['subset_state'] == old for g, old in zip(w.groups, b.states)]
             P.check(qn + "/redo-round:every-selection-restored", S.And(*conds) if conds else True)
         e = st.mode.fields['_edit_subset']
         items = e.items if isinstance(e, PList) else (list(e) if isinstance(e, (list, tuple)) else None)
